@@ -640,12 +640,20 @@ func (e *Env) sliceExpr(x *ast.SliceExpr, t types.Type) Value {
 		if _, isArr := e.info().Types[x.X].Type.Underlying().(*types.Array); isArr {
 			limit = b.Len
 		}
-		e.panicCheck(And(Le(IntLit(0), lo), Le(lo, hi), Le(hi, limit)), "slice", "slice bounds: "+exprString(x), x.Pos())
+		newCap := Sub(b.Cap, lo)
+		if x.Slice3 && x.Max != nil {
+			// full slice expression s[lo:hi:max]: the capacity of the result is max-lo
+			mx := e.expr(x.Max).T
+			e.panicCheck(And(Le(IntLit(0), lo), Le(lo, hi), Le(hi, mx), Le(mx, limit)), "slice", "slice bounds: "+exprString(x), x.Pos())
+			newCap = Sub(mx, lo)
+		} else {
+			e.panicCheck(And(Le(IntLit(0), lo), Le(lo, hi), Le(hi, limit)), "slice", "slice bounds: "+exprString(x), x.Pos())
+		}
 		base, rel := b.Off, lo
 		if b.Base != nil {
 			base, rel = b.Base, Add(b.Rel, lo)
 		}
-		return Value{K: VSlice, Ref: b.Ref, Off: Add(b.Off, lo), Len: Sub(hi, lo), Cap: Sub(b.Cap, lo), ElemU: b.ElemU, Typ: t, Base: base, Rel: rel}
+		return Value{K: VSlice, Ref: b.Ref, Off: Add(b.Off, lo), Len: Sub(hi, lo), Cap: newCap, ElemU: b.ElemU, Typ: t, Base: base, Rel: rel}
 	case VStr:
 		e.panicCheck(And(Le(IntLit(0), lo), Le(lo, hi), Le(hi, b.Len)), "slice", "slice bounds: "+exprString(x), x.Pos())
 		base, rel := b.Off, lo
